@@ -187,6 +187,16 @@ def _rsh_server(addrs):
                 time.sleep(60)
                 return
             c.sendall(b"\0"); c.sendall(b"hello from " + name.encode() + b"\n")
+            if mode == "reset":
+                # the host dies in the middle of the command: the connection is reset, not closed
+                import struct
+                time.sleep(0.3)
+                c.setsockopt(socket.SOL_SOCKET, socket.SO_LINGER, struct.pack("ii", 1, 0))
+                c.close()
+                time.sleep(0.5)
+                if e:
+                    e.close()
+                return
             if e:
                 e.close()
             c.close()
@@ -218,15 +228,16 @@ def real_part(ctx, quick):
     real.build_module(os.path.join(vlib.REPO, "src/modules/xrcmd.c"), "xrcmd")
     problems, nruns = [], 0
     # R1: exec children; one hung host among many healthy ones, concurrent starts
-    for rep in range(2 if quick else 10):
+    for rep in range(3 if quick else 12):
         nh = 41
         hung = {7} if rep % 2 == 0 else {3, 29}
+        xfds = 300 if rep % 3 else 0          # two runs in three: every descriptor pdsh opens has a number above 300
         script = "case %%h in %s) sleep 30;; *) echo out-%%h;; esac" % "|".join("h%d" % k for k in sorted(hung))
         t0 = time.time()
-        rc, o, e = real.run(["-R", "exec", "-f", "32", "-u", "2", "-w", "h[0-%d]" % (nh - 1), "sh", "-c", script], timeout=25)
+        rc, o, e = real.run(["-R", "exec", "-f", "32", "-u", "2", "-w", "h[0-%d]" % (nh - 1), "sh", "-c", script], timeout=25, extra_fds=xfds)
         dt = time.time() - t0
         nruns += 1
-        case = {"transport": "exec", "hosts": nh, "hung": sorted(hung), "command_timeout": 2}
+        case = {"transport": "exec", "hosts": nh, "hung": sorted(hung), "command_timeout": 2, "descriptors_open_at_start": 3 + xfds}
         if rc == -999:
             problems.append((case, "pdsh ends within command timeout + watchdog period", "still running after 25 s", "pdsh did not terminate although the hung hosts are covered by -u 2")); continue
         outl = set(o.decode("latin-1").split("\n"))
@@ -249,7 +260,7 @@ def real_part(ctx, quick):
                 problems.append((case, "<= 10 s", "%.1f s and %.1f s" % (dt, dt2), "the run took %.1f s (again %.1f s) although the command timeout is 2 s and the watchdog period 2 s" % (dt, dt2)))
     # R2: rsh over loopback: one daemon never acknowledges (hang while connecting), connect timeout 1
     try:
-        socks = _rsh_server([("127.7.3.1", "ok"), ("127.7.3.2", "hang"), ("127.7.3.3", "ok")])
+        socks = _rsh_server([("127.7.3.1", "ok"), ("127.7.3.2", "hang"), ("127.7.3.3", "ok"), ("127.7.3.4", "reset")])
     except OSError as ex:
         ctx.notes.append("rsh loopback part skipped: %s" % ex)
         return nruns, problems
@@ -274,6 +285,19 @@ def real_part(ctx, quick):
                 dt2 = time.time() - t1
                 if dt2 > 1 + 2 + 6:
                     problems.append((case, "<= 9 s", "%.1f s and %.1f s" % (dt, dt2), "the run took %.1f s (again %.1f s) although the connect timeout is 1 s and the watchdog period 2 s" % (dt, dt2)))
+        # a host that dies mid-command (connection reset after its first line): reported under its own name, the others unharmed
+        for rep in range(2 if quick else 6):
+            rc, o, e = real.run(["-R", "rsh", "-t", "3", "-w", "127.7.3.[1,4,3]", "true"], timeout=25)
+            nruns += 1
+            case = {"transport": "rsh", "hosts": ["127.7.3.1 ok", "127.7.3.4 resets the connection after one line", "127.7.3.3 ok"]}
+            ot, et = o.decode("latin-1"), e.decode("latin-1")
+            if rc == -999:
+                problems.append((case, "pdsh ends", "still running after 25 s", "pdsh did not terminate when a host reset its connection")); continue
+            for a in ("127.7.3.1", "127.7.3.3"):
+                if ("%s: hello from %s" % (a, a)) not in ot:
+                    problems.append((case, "output of %s" % a, (ot + et)[-300:], "healthy host %s did not get its output relayed" % a)); break
+            if "127.7.3.4: " not in et:
+                problems.append((case, "127.7.3.4 reported", et[-300:], "a host that died mid-command (connection reset) is not reported on standard error under its own name")); break
     finally:
         for l in socks:
             try:
